@@ -170,6 +170,97 @@ class RewriteHooks(QHooks):
             self.site('rewrite:no-match-or-empty-tag->remote,address-unchanged', None, v == 2 and rw == (T, A, N), '%s returns %s with record %s' % (key, v, rw), E)
 
 
+class ControlFileHooks(QHooks):
+    """control_readfile() over a scripted file: which entries reach the list"""
+    def __init__(self, lines):
+        self.lines = lines
+        self.ends = []
+
+    def tracked_global(self, path):
+        return True
+
+    def precise_arith(self, path):
+        return True
+
+    @staticmethod
+    def ptr(v):
+        if v is not TOP and v is not None and len(v) == 1:
+            (a,) = v
+            if isinstance(a, tuple) and a[0] == '&':
+                return a[1]
+        return None
+
+    def prim_stralloc_copys(self, E, x, args):
+        sa = self.ptr(args[0])
+        return [Outcome(ret=fs(1), sets={sa + '.len': fs(0), '$out': fs(())})]
+
+    def prim_open_read(self, E, x, args):
+        return [Outcome(ret=fs(('fd', 'control')))]
+
+    def prim_substdio_fdbuf(self, E, x, args):
+        return [Outcome(ret=TOP)]
+
+    def prim_close(self, E, x, args):
+        return [Outcome(ret=TOP)]
+
+    def prim_getln(self, E, x, args):
+        sa, mp = self.ptr(args[1]), self.ptr(args[2])
+        if sa is None or mp is None:
+            raise AnalysisBroken('control_readfile: getln() shape changed')
+        n = g1(E, '$n', 0)
+        if n >= len(self.lines):
+            return [Outcome(ret=fs(0), sets={mp: fs(0), sa + '.len': fs(0)})]
+        ln = self.lines[n]
+        st = {mp: fs(1 if ln.endswith('\n') else 0), sa + '.len': fs(len(ln)), sa + '.s': fs(('&', sa + '.s[0]')), '$n': fs(n + 1)}
+        for i, ch in enumerate(ln):
+            st['%s.s[%d]' % (sa, i)] = fs(ord(ch))
+        return [Outcome(ret=fs(0), sets=st, log='line %r' % ln)]
+
+    def prim_stralloc_append(self, E, x, args):
+        sa = self.ptr(args[0])
+        ln = g1(E, sa + '.len')
+        if not isinstance(ln, int):
+            return [Outcome(ret=fs(1))]
+        return [Outcome(ret=fs(1), sets={'%s.s[%d]' % (sa, ln): fs(0), sa + '.len': fs(ln + 1), sa + '.s': fs(('&', sa + '.s[0]'))})]
+
+    prim_stralloc_0 = prim_stralloc_append
+
+    def prim_stralloc_cat(self, E, x, args):
+        src = self.ptr(args[1])
+        ln = g1(E, src + '.len')
+        bs = [g1(E, '%s.s[%d]' % (src, i)) for i in range(ln)] if isinstance(ln, int) and 0 <= ln < 64 else None
+        item = ''.join(chr(b) if isinstance(b, int) else '?' for b in bs) if bs is not None else None
+        return [Outcome(ret=fs(1), sets={'$out': fs(tuple(g1(E, '$out', ())) + (item,))})]
+
+    def on_return(self, E, fn, val):
+        if fn.name == 'control_readfile':
+            self.ends.append((g1(E, '$out', ()), next(iter(val)) if val is not TOP and len(val) == 1 else None, E.trace.list()))
+
+
+def control_file_sites(db, rep, prog):
+    fn = db.fn('control.c', 'control_readfile')
+    files = [['a.com\n', '\n', '# c\n', 'b.org  \t\n', '   \n', 'last'], [], ['#x'], [' lead\n'], ['\n', '\n'], ['x\n', ' \t']]
+    bad = None
+    for lines in files:
+        H = ControlFileHooks(lines)
+        e = Engine(db, prog, H)
+        fid = e.frame_id(fn)
+        e.run(fn, {'%s::%s' % (fid, fn.params[0]): fs(('&', 'SA')), '%s::%s' % (fid, fn.params[2]): fs(0)})
+        rep.count_states(e.states, e.transitions)
+        want = []
+        for ln in lines:
+            t = ln.rstrip('\n \t')
+            if t and t[0] != '#':
+                want.append(t + '\0')
+        if len(H.ends) != 1:
+            raise AnalysisBroken('control_readfile: %d ends explored for a scripted file' % len(H.ends))
+        out, ret, tr = H.ends[0]
+        if list(out) != want or ret != 1:
+            bad = bad or ('a control file with the lines %s yields the entries %s (result %s); documented: blank lines and # comments are skipped, trailing blanks removed: %s' % (lines, list(out), ret, want), tr)
+    return {'control_readfile:entries=non-empty-non-comment-lines-trimmed': (bad is None, 'control.c:control_readfile', bad[0] if bad else '%d scripted files' % len(files), bad[1] if bad else [])}
+
+
+
 def run(ctx):
     db, rep = ctx.db, ctx.report
     prog = db.program('qmail-send')
@@ -257,6 +348,10 @@ def run(ctx):
     r3.check(distinct, 'hash-distinguishes-other-bytes', 'constmap.c:hash', 'hash of single non-letter bytes collide')
     r3.expect_min(4)
 
+    r6 = rep.rule('C10.6-control-files', 'R-TABLE', 'control_readfile(): the list handed to constmap holds exactly the non-empty, non-comment lines with trailing blanks removed (so an empty domain is never "listed")')
+    for inst, v in sorted(control_file_sites(db, rep, prog).items()):
+        r6.check(v[0], inst, v[1], v[2], v[3])
+    r6.expect_min(1)
     r4 = rep.rule('C10.4-one-record-per-recipient', 'R-TYPESTATE', 'todo_do: exactly one channel record (rwline) per T record, to the channel rewrite() chose, in file order')
     td = qsend.analyse_todo_do(db, rep)
     attach(r4, td, only={'todo:exactly-one-channel-record-per-T', 'todo:no-channel-record-for-non-T', 'todo:channel-record-is-rwline',
